@@ -127,6 +127,14 @@ CHECKS = {
          "and, end to end, Data(dim_agg_length=..) for observations and forecasts alike.",
     technique="TLA+ spec (Aggregators.tla) model-checked with TLC; enumerated vectors/arrays/grids replayed into verif.aggregator and verif.data pre-aggregation",
     ref="6/C15"),
+ "C17": dict(
+    text="Figure.tla gives every documented appearance option one owned figure property (with the value it must read for each of two "
+         "argument values), the few properties it may legitimately disturb, and the Independent lemma; TLC enumerates every consistent "
+         "set of up to 2 options (2 318 cases) on a standard plot and single options on pithist / reliability; the matplotlib figure "
+         "left by verif.driver.run and the written image are projected into the abstract properties: owned ones must carry the option's "
+         "value, all properties no given option controls must equal the option-free baseline figure; image formats by extension.",
+    technique="TLA+ spec (Figure.tla) enumerated by TLC; option sets run through verif.driver.run and the resulting matplotlib figure projected and compared",
+    ref="6/C17"),
  "C18": dict(
     text="DataImpl.tla models Data.get_scores as the code has it (heap of mutable arrays, per-input field cache handed out without "
          "copying, request cache, observation sharing by aliasing, in-place propagation and -obsrange); TLC checks that it refines "
